@@ -12,7 +12,14 @@ package htlcswitch
 //	"c"  calls on Bob's CircuitMap (commit/open/close/fail/delete + result)
 //	"p"  packets Bob's links hand to the switch (ForwardPackets), with a
 //	     snapshot whether the outgoing HTLC is still active on a commitment
-//	"x"  injected faults (message drops, node restart)
+//	"s"  messages Bob's links SEND (recorded in the sending link's goroutine)
+//	"x"  injected faults: ["x","linkrestart",ch] Bob's link on channel ch was
+//	     stopped (both ends of the channel are stopped and restarted over the
+//	     channel state reloaded from disk = peer disconnect/reconnect);
+//	     ["x","restart"] Bob's whole switch was stopped and re-created on the
+//	     same database (circuit map reloaded, all four links restarted);
+//	     ["x","dropping",ch] from here on every message on channel ch is lost
+//	     until the channel is re-established
 //
 // and, once the network is quiescent, the end state: balances of all four
 // channel ends, active HTLCs, circuit-map sizes, payment results, invoice
@@ -26,18 +33,25 @@ import (
 	"encoding/hex"
 	"fmt"
 	"sync"
+	"sync/atomic"
 	"testing"
 	"time"
 
+	"github.com/btcsuite/btcd/btcec/v2"
 	"github.com/btcsuite/btcd/btcutil/v2"
+	"github.com/btcsuite/btcd/wire"
 	sphinx "github.com/lightningnetwork/lightning-onion"
 	"github.com/lightningnetwork/lnd/channeldb"
+	"github.com/lightningnetwork/lnd/contractcourt"
 	"github.com/lightningnetwork/lnd/graph/db/models"
 	"github.com/lightningnetwork/lnd/htlcswitch/hop"
 	"github.com/lightningnetwork/lnd/invoices"
 	"github.com/lightningnetwork/lnd/lnpeer"
 	"github.com/lightningnetwork/lnd/lntypes"
+	"github.com/lightningnetwork/lnd/lnwallet"
+	"github.com/lightningnetwork/lnd/lnwallet/chainfee"
 	"github.com/lightningnetwork/lnd/lnwire"
+	"github.com/lightningnetwork/lnd/ticker"
 )
 
 // ---- global recorder --------------------------------------------------------
